@@ -15,11 +15,17 @@ for a in sys.argv[2:]:
         extra_checks = a.split("=")[1].split(",")
 items = args or sorted(p + "/" + x for p in os.listdir(base) if os.path.isdir(os.path.join(base, p)) for x in os.listdir(os.path.join(base, p)) if os.path.exists(os.path.join(base, p, x, "patch.diff")))
 for it in items:
-    pid, x = it.split("/")
-    d = os.path.join(base, pid, x)
+    if "/" in it:
+        pid, x = it.split("/")
+        d = os.path.join(base, pid, x)
+    else:
+        # flat layout of /verif/seeded: <round>-<P>-<X>
+        d = os.path.join(base, it)
+        pid, x = None, it
     meta = {}
     if os.path.exists(os.path.join(d, "meta.json")):
         meta = json.load(open(os.path.join(d, "meta.json")))
+    pid = pid or meta.get("breaks_property")
     wt = "/tmp/wt/eval_%s_%s" % (pid, x)
     subprocess.run(["git", "-C", "/repo", "worktree", "remove", "--force", wt], capture_output=True)
     subprocess.run(["git", "-C", "/repo", "worktree", "add", "--detach", wt, meta.get("base_commit", "HEAD")], capture_output=True, check=True)
